@@ -28,6 +28,7 @@ import seaborn as sns  # type: ignore[import]
 from ipywidgets import fixed, interact  # type: ignore[import]
 
 from black_it.calibrator import Calibrator
+from black_it.utils.json_pandas_checkpointing import load_samplers_id_table
 
 if TYPE_CHECKING:
     import os
@@ -45,6 +46,11 @@ def _get_samplers_id_table(saving_folder: str | os.PathLike) -> dict[str, int]:
     Returns:
         the id table of the samplers
     """
+    samplers_id_table = load_samplers_id_table(saving_folder)
+    if samplers_id_table is not None:
+        return samplers_id_table
+
+    # older checkpoints do not store the table: rebuild it from the samplers
     output_file = Path(saving_folder) / "scheduler_pickled.pickle"
     with output_file.open("rb") as f:
         scheduler = pickle.load(f)  # nosec B301
